@@ -531,9 +531,13 @@ def names_book():
         'rng': 'Sheet1!$A$1:$B$2',
         'qn': "'My Sheet'!$C$3",
         'qrng': "'My Sheet'!$A$1:$A$3",
+        # a name for two blocks that share neither rows nor columns
+        'parts': 'Sheet1!$A$1:$A$2,Sheet1!$C$3:$D$4',
     }
     v = book.value
     s1, s2 = titles
+    partsum = v(s1, 'A', 1) + v(s1, 'A', 2) + sum(
+        v(s1, c, r) for r in (3, 4) for c in 'CD')
     rngsum = sum(v(s1, c, r) for r in (1, 2) for c in 'AB')
     qsum = sum(v(s2, 'A', r) for r in (1, 2, 3))
     for host in titles:
@@ -545,6 +549,12 @@ def names_book():
         book.add_probe(host, '=COUNTA(rng)',
                        'C03/names/host=%s/COUNTA(rng)' % host, lib.norm(4),
                        ['name:range'])
+        book.add_probe(host, '=SUM(parts)',
+                       'C03/names/host=%s/SUM(parts)' % host,
+                       lib.norm(partsum), ['name:range', 'name:two-areas'])
+        book.add_probe(host, '=COUNTA(parts)',
+                       'C03/names/host=%s/COUNTA(parts)' % host, lib.norm(6),
+                       ['name:range', 'name:two-areas'])
         book.add_probe(host, '=qn*2', 'C03/names/host=%s/qn*2' % host,
                        lib.norm(v(s2, 'C', 3) * 2),
                        ['name:cell', 'name:quoted-sheet'])
@@ -568,6 +578,98 @@ def run_names(ctx):
         got = lib.observe(ev.evaluate, name)
         ctx.check('C03/names/evaluate(%s)' % name, got, lib.norm(want),
                   tags + ['via:evaluate'], {'family': 'names'}, True)
+
+
+# ---- (e1) sheets without any content ----------------------------------------------
+def run_emptysheet(ctx):
+    """A sheet that holds no cell at all (to be filled later, notes ...):
+    every cell of it reads as blank - also after one of them was set."""
+    titles = ['Sheet1', 'Notes', 'To Do']
+    book = Book(titles)
+    for t in titles[1:]:
+        book.cells[t] = {}
+        for k in [k for k in book.data if k[0] == t]:
+            del book.data[k]
+    v = book.value
+    a1 = v('Sheet1', 'A', 1)
+    probes = [
+        ('=Notes!$A$1+A1', lib.norm(a1)),
+        ('=IF(Notes!B2="","empty","full")', 'text:empty'),
+        ("='To Do'!C3+A1", lib.norm(a1)),
+        ('=ISBLANK(Notes!D4)', 'bool:True'),
+        ("=IF(ISBLANK('To Do'!A1),1,2)", 'num:1.0'),
+        ('=Notes!B1&"x"', 'text:x'),
+    ]
+    for f, want in probes:
+        book.add_probe('Sheet1', f, 'C03/emptysheet/%s' % f, want,
+                       ['sheet:without-cells', 'cell:empty'])
+    model = book.run(ctx, 'emptysheet')
+    if model is None:
+        return
+    # one cell of the empty sheet is set: its neighbours still read blank
+    ev = lib.Evaluator(model)
+    ev.set_cell_value('Notes!A1', 7)
+    for f, want in (('Sheet1!H1', lib.norm(a1 + 7)),
+                    ('Sheet1!H2', 'text:empty'), ('Sheet1!H4', 'bool:True')):
+        ctx.check('C03/emptysheet/after-set/%s' % f,
+                  lib.observe(ev.evaluate, f), want,
+                  ['sheet:without-cells', 'history:set'],
+                  {'family': 'emptysheet'}, True)
+    lib.clear_caches()
+
+
+# ---- (e2) "the CURRENT value of each cell" ------------------------------------------
+# A range over formula cells whose inputs lie outside the range: after an
+# input changes, a range-consuming function sees the new values - like the
+# same cells referenced one by one.
+CURRENT_SHAPES = {'1x3': ['B1', 'C1', 'D1'], '3x1': ['B1', 'B2', 'B3'],
+                  '2x2': ['B1', 'C1', 'B2', 'C2']}
+
+
+def run_current(ctx):
+    for shape, members in sorted(CURRENT_SHAPES.items()):
+        rng = '%s:%s' % (members[0], members[-1])
+        for sheet in ('Sheet1', 'Data'):
+            cells = {}
+            for k, m in enumerate(members):
+                cells['%s!F%d' % (sheet, k + 1)] = k + 1          # inputs
+                cells['%s!%s' % (sheet, m)] = '=F%d*10' % (k + 1)
+            cells[sheet + '!H1'] = '=SUM(%s)' % rng
+            cells[sheet + '!H2'] = '=' + '+'.join(members)
+            cells[sheet + '!H3'] = '=MAX(%s)' % rng
+            for k in range(len(members)):
+                for how in ('evaluator', 'model', 'second-evaluator'):
+                    model = lib.compile_dict(cells)
+                    ev = lib.Evaluator(model)
+                    first = lib.observe(ev.evaluate, sheet + '!H1')
+                    lib.observe(ev.evaluate, sheet + '!H3')
+                    target = '%s!F%d' % (sheet, k + 1)
+                    if how == 'evaluator':
+                        ev.set_cell_value(target, 100)
+                    elif how == 'model':
+                        model.set_cell_value(target, 100)
+                    else:
+                        lib.Evaluator(model).set_cell_value(target, 100)
+                    vals = [(j + 1) * 10 if j != k else 1000
+                            for j in range(len(members))]
+                    key0 = 'C03/current/%s/%s/set=F%d/%s' % (
+                        shape, sheet, k + 1, how)
+                    inputs = {'family': 'current'}
+                    tags = ['range:over-formulas', 'history:set-outside',
+                            'set:' + how]
+                    ctx.check(key0 + '/first', first,
+                              lib.norm(sum((j + 1) * 10 for j in
+                                           range(len(members)))), tags, inputs)
+                    ctx.check(key0 + '/SUM', lib.observe(
+                        ev.evaluate, sheet + '!H1'), lib.norm(sum(vals)),
+                        tags + ['fn:SUM'], inputs)
+                    ctx.check(key0 + '/one-by-one', lib.observe(
+                        ev.evaluate, sheet + '!H2'), lib.norm(sum(vals)),
+                        tags, inputs)
+                    ctx.check(key0 + '/MAX', lib.observe(
+                        ev.evaluate, sheet + '!H3'), lib.norm(max(vals)),
+                        tags + ['fn:MAX'], inputs)
+                    lib.clear_caches()
 
 
 # ---- (f) address utilities -----------------------------------------------------
@@ -677,6 +779,8 @@ def plan(tier):
         for g in GAPS:
             shards.append({'family': 'gap', 'direction': direction, 'g': g})
     shards.append({'family': 'names'})
+    shards.append({'family': 'current'})
+    shards.append({'family': 'emptysheet'})
     shards.append({'family': 'shapes', 'weight': 9})
     shards.append({'family': 'whole', 'kind': 'row', 'weight': 9})
     if tier == 'thorough':
@@ -707,6 +811,13 @@ def run_shard(shard, ctx):
         run_gap(shard['direction'], shard['g'], ctx)
     elif f == 'names':
         run_names(ctx)
+    elif f == 'emptysheet':
+        run_emptysheet(ctx)
+    elif f == 'current':
+        run_current(ctx)
+        ctx.sample({'family': f, 'cells': {'B1': '=F1*10', 'C1': '=F2*10',
+                                           'H1': '=SUM(B1:C1)'},
+                    'history': 'evaluate H1; set F1; evaluate H1'})
     elif f == 'shapes':
         run_shapes(ctx)
     elif f == 'whole':
